@@ -61,18 +61,22 @@ def path_lex(engine, ctx, params):
     """lexical parser: parse(s1); parse(s2) on ONE format instance vs parse(s2) on a fresh instance"""
     it = engine.new_interp(ctx, step_limit=900000)
     lf = lexical_format(it, params['fmt'])
-    s1, _ = sym_chars(ctx, params['history'][0], prefix='a'); s2, _ = sym_chars(ctx, params['history'][1], prefix='b')
-    lex_parse(it, lf, s1)
+    syms = [sym_chars(ctx, h, prefix=chr(97 + i))[0] for i, h in enumerate(params['history'])]
+    for s_ in syms[:-1]: lex_parse(it, lf, s_)
+    s1, s2 = syms[0], syms[-1]
     r2 = lex_parse(it, lf, s2)
-    fresh = lexical_format(it, params['fmt'])
-    r2f = lex_parse(it, fresh, s2)
+    it2 = engine.new_interp(ctx, step_limit=900000)          # a fresh execution: fresh format instance AND fresh statics / thread-locals
+    fresh = lexical_format(it2, params['fmt'])
+    r2f = lex_parse(it2, fresh, s2)
+    it.fn_seen |= it2.fn_seen
     m = ctx.model()
     a = canon_result(r2, canon_lex_narsese, m); b = canon_result(r2f, canon_lex_narsese, m)
     c1, c2 = concretize(ctx, s1, m), concretize(ctx, s2, m)
+    call = [concretize(ctx, s_, m) for s_ in syms]
     if a == b:
         return {'status': 'ok', 'sample': {'fmt': params['fmt'], 'lexical history': [show(c1), show(c2)], 'outcome': r2.variant}, 'extra': {'fns': list(it.fn_seen),
                 'native': {'op': 'lex_parse', 'args': [params['fmt'], hexs(c2)], 'interp': ['ok', a]}}}
-    return {'status': 'violation', 'kind': 'lex-history', 'fmt': params['fmt'], 'history': [c1, c2], 'message': 'lexical parse depends on an earlier parse', 'fns': list(it.fn_seen)}
+    return {'status': 'violation', 'kind': 'lex-history', 'fmt': params['fmt'], 'history': call, 'message': 'lexical parse depends on an earlier parse', 'fns': list(it.fn_seen)}
 
 def confirm(v, oracle):
     if v['kind'] == 'panic':
@@ -87,6 +91,14 @@ def confirm(v, oracle):
         diff = strip_err(multi[i]) != strip_err(single)
         return {'confirmed': diff, 'why': 'native results agree', 'replay': {'op': 'parse_multi', 'args': [v['fmt'], '|'.join(hexs(c) for c in v['history'])], 'compare_with': {'op': 'parse', 'args': [v['fmt'], hexs(v['history'][i])]}, 'history': [show(c) for c in v['history']]},
                 'what': 'parse_multi(%r)[%d] = %s but parse(%r) = %s' % ([show(c) for c in v['history']], i, json.dumps(strip_err(multi[i]), ensure_ascii=False)[:120], show(v['history'][i]), json.dumps(strip_err(single), ensure_ascii=False)[:120])}
+    if v['kind'] == 'lex-history':
+        arg = '|'.join(hexs(c) for c in v['history'])
+        st, r = oracle.ask('lex_history', v['fmt'], arg)
+        rp = {'op': 'lex_history', 'args': [v['fmt'], arg], 'history': [show(c)[:80] for c in v['history']]}
+        if st != 'ok': return {'confirmed': st == 'panic', 'replay': rp, 'what': 'lexical history: native %s' % st, 'why': 'native ' + st}
+        diff = strip_err(r['seq'][-1]) != strip_err(r['alone'])
+        return {'confirmed': diff, 'why': 'native results agree', 'replay': rp,
+                'what': 'lexical parse of %r after the history %s gives %s, alone %s' % (show(v['history'][-1])[:60], [show(c)[:40] for c in v['history'][:-1]], json.dumps(strip_err(r['seq'][-1]), ensure_ascii=False)[:80], json.dumps(strip_err(r['alone']), ensure_ascii=False)[:80])}
     if v['kind'] == 'chars':
         a = oracle.ask('parse', v['fmt'], hexs(v['input'])); b = oracle.ask('parse_chars', v['fmt'], hexs(v['input']))
         na = [a[0], strip_err(a[1]) if a[0] == 'ok' else None]; nb = [b[0], strip_err(b[1]) if b[0] == 'ok' else None]
@@ -151,5 +163,12 @@ def main(tier, seed):
         R.run_query(Query('chars/' + fmt, 'c08', 'path_chars', plist, 'parse vs parse_chars vs repeated parse, all strings of <= %d chars' % (2 if quick else 3)), confirm, key_of)
         lp = [dict(fmt=fmt, history=[[ord(c) for c in fr['budget-only']] + [None], [ord(c) for c in fr['sentence']]]),
               dict(fmt=fmt, history=[[None, None], [ord(c) for c in fr['task']]])]
+        # histories that exercise depth: an earlier very deep input (valid and truncated) followed by inputs of every depth up to 72
+        lb, rb = {'ascii': ('{', '}'), 'latex': ('\\left\\{', '\\right\\}'), 'han': ('『', '』')}[fmt]
+        def nest(d, closed=True): return [ord(c) for c in lb * d + 'a' + (rb * d if closed else '')]
+        for d2 in ((8, 62, 63, 64, 65, 72) if quick else range(1, 73)):
+            lp.append(dict(fmt=fmt, history=[nest(100), nest(d2)]))
+            lp.append(dict(fmt=fmt, history=[nest(90, False), nest(d2)]))
+        lp.append(dict(fmt=fmt, history=[nest(100), nest(100), nest(100), nest(61)]))
         R.run_query(Query('lexical/' + fmt, 'c08', 'path_lex', lp, 'lexical parser: two parses on one format instance vs a fresh instance'), confirm, key_of)
     return R.finish(rule='one state = one path of parse_multi+parse over a symbolic history', trusted=['rustc MIR', 'mirsym + std models (validated per path)', 'z3'])
